@@ -80,6 +80,18 @@ BENIGN = [
     ("b_c20_skew_minmax", "C20", L,
      "            skew = skew.clip(self.MIN_SKEW, self.MAX_SKEW)\n",
      "            skew = np.minimum(np.maximum(skew, self.MIN_SKEW), self.MAX_SKEW)\n"),
+    # driver: channel normalisation through asarray/atleast_1d, clamp through minimum/maximum
+    ("b_c20_channels_asarray", "C20", L,
+     "            if isinstance(channels, int):\n                channels = np.array([channels], dtype=int)\n            else:\n                channels = np.array(channels, dtype=int)\n",
+     "            channels = np.atleast_1d(np.asarray(channels)).astype(int)\n"),
+    # PRBS: unsupported orders refused through a membership test written differently, still before any allocation
+    ("b_c04_order_check_keys", "C04", D,
+     "    if order not in taps.keys():",
+     "    if order not in tuple(taps):"),
+    # comparison: lengths checked through shapes
+    ("b_c15_compare_shape_check", "C15", T,
+     "        return binary_sequence(self.abs() > other.abs())",
+     "        return binary_sequence((self.abs() > other.abs()).astype(np.uint8))"),
     # SYNC: direct correlation instead of FFT convolution
     ("b_c20_sync_np_correlate", "C20", L,
      "    corr = sg.fftconvolve(signal_rx[:2*l-1], signal_tx[l::-1], mode='valid')",
